@@ -27,12 +27,20 @@
 #include <fcppt/enum/size_type.hpp>
 #include <fcppt/iterator/adapt_range.hpp>
 #include <fcppt/iterator/make_range.hpp>
+#include <fcppt/iterator/range_comparison.hpp>
 #include <fcppt/iterator/range_impl.hpp>
+#include <fcppt/iterator/base_impl.hpp>
+#include <fcppt/int_iterator_impl.hpp>
+#include <fcppt/enum/iterator_impl.hpp>
+#include <fcppt/container/grid/spiral_iterator_impl.hpp>
+#include <fcppt/container/grid/spiral_range_impl.hpp>
+#include <fcppt/tuple/get.hpp>
 #include <fcppt/math/int_range_count.hpp>
 #include <fcppt/range/size.hpp>
 #include <fcppt/type_iso/strong_typedef.hpp>
 #include <fcppt/type_iso/undecorate.hpp>
 
+#include <algorithm>
 #include <cstdint>
 #include <iterator>
 #include <limits>
@@ -50,6 +58,10 @@ FCPPT_MAKE_STRONG_TYPEDEF(std::int8_t, si8);
 FCPPT_MAKE_STRONG_TYPEDEF(std::uint8_t, su8);
 FCPPT_MAKE_STRONG_TYPEDEF(std::int32_t, si32);
 FCPPT_MAKE_STRONG_TYPEDEF(std::uint32_t, su32);
+FCPPT_MAKE_STRONG_TYPEDEF(std::int16_t, si16);
+FCPPT_MAKE_STRONG_TYPEDEF(std::uint16_t, su16);
+FCPPT_MAKE_STRONG_TYPEDEF(std::int64_t, si64);
+FCPPT_MAKE_STRONG_TYPEDEF(std::uint64_t, su64);
 
 std::string i128_str(__int128 v)
 {
@@ -154,7 +166,8 @@ std::string range_line(fcppt::int_range<Int> const &r, __int128 const b, __int12
     if (!overrun)
       rs = num(fcppt::range::size(r));
   }
-  return res + " rs=" + rs;
+  // begin() / end() observed directly: the clamp of the constructor is visible in *end()
+  return res + " rs=" + rs + " be=" + num(fcppt::type_iso::undecorate(*r.begin())) + ":" + num(fcppt::type_iso::undecorate(*r.end()));
 }
 
 template <typename Int, typename U, bool Strong>
@@ -162,7 +175,78 @@ std::string ir_line(__int128 const b, __int128 const e)
 {
   if (!fits<U>(b) || !fits<U>(e))
     return "bad-op";
-  return range_line<Int, U, Strong>(fcppt::make_int_range(Int(static_cast<U>(b)), Int(static_cast<U>(e))), b, e);
+  // the constructor called directly must agree with make_int_range
+  fcppt::int_range<Int> const direct(Int(static_cast<U>(b)), Int(static_cast<U>(e)));
+  fcppt::int_range<Int> const made{fcppt::make_int_range(Int(static_cast<U>(b)), Int(static_cast<U>(e)))};
+  if (!(direct.begin() == made.begin()) || direct.end() != made.end())
+    return "ctor-mismatch";
+  return range_line<Int, U, Strong>(made, b, e);
+}
+
+// the operations of iterator::base on an input iterator used directly: It is int_iterator<Int> or enum_::iterator<E>,
+// mk makes one from a number, shw prints one
+template <typename It, typename Mk, typename Shw>
+std::string iter_ops_line(Mk const &mk, Shw const &shw, bool const incr_is_ub, __int128 const a, __int128 const b)
+{
+  It const ia{mk(a)}, ib{mk(b)};
+  std::string r = std::string("eq=") + (ia == ib ? "1" : "0") + " ne=" + (ia != ib ? "1" : "0") + " self=" + (ia == ia ? "1" : "0") +
+                  (ia != ia ? "1" : "0") + " d=" + shw(ia) + "," + shw(ib) + " post=";
+  if (incr_is_ub)
+    r += "ub";
+  else
+  {
+    It x{ia};
+    It const old{x++};
+    It y{ia};
+    It &ref{++y};
+    r += shw(old) + ">" + shw(x) + (&ref == &y && y == x ? "" : "!pre");
+  }
+  It x{ia}, y{ib};
+  x.swap(y);
+  r += " sw=" + shw(x) + "," + shw(y);
+  fcppt::iterator::swap(x, y);
+  r += " fsw=" + shw(x) + "," + shw(y);
+  x.swap(x);
+  r += " ssw=" + shw(x);
+  return r;
+}
+
+template <typename Int, typename U>
+std::string iit_line(__int128 const a, __int128 const b)
+{
+  if (!fits<U>(a) || !fits<U>(b))
+    return "bad-op";
+  using it = fcppt::int_iterator<Int>;
+  bool const ub = std::is_signed_v<U> && sizeof(U) >= sizeof(int) && a == static_cast<__int128>(std::numeric_limits<U>::max());
+  return iter_ops_line<it>(
+      [](__int128 const v) { return it(Int(static_cast<U>(v))); },
+      [](it const &i) { return num(fcppt::type_iso::undecorate(*i)); },
+      ub,
+      a,
+      b);
+}
+
+template <typename Int, typename U>
+std::string itri_line(__int128 const b, __int128 const e)
+{
+  if (!fits<U>(b) || !fits<U>(e))
+    return "bad-op";
+  if (std::is_signed_v<U> && sizeof(U) >= sizeof(int) && e < b)
+    return "bad-op";
+  using it = fcppt::int_iterator<Int>;
+  auto const r = fcppt::iterator::make_range(it(Int(static_cast<U>(b))), it(Int(static_cast<U>(e))));
+  std::vector<U> vals;
+  vals.reserve(cap);
+  for (Int const v : r)
+  {
+    if (vals.size() == cap)
+      return "overrun";
+    vals.push_back(fcppt::type_iso::undecorate(v));
+  }
+  std::vector<std::string> out;
+  for (U const v : vals)
+    out.push_back(num(v));
+  return "n=" + std::to_string(out.size()) + " e=" + join_str(out);
 }
 
 template <typename Int, typename U, bool Strong>
@@ -184,6 +268,25 @@ std::string ir_ops(std::vector<std::string> const &t)
     if (!fits<U>(n))
       return "bad-op";
     return range_line<Int, U, Strong>(fcppt::make_int_range_count(Int(static_cast<U>(n))), 0, n);
+  }
+  if (t[0] == "iit" && t.size() == 4)
+    return iit_line<Int, U>(parse(t[2]), parse(t[3]));
+  if (t[0] == "itri" && t.size() == 4)
+    return itri_line<Int, U>(parse(t[2]), parse(t[3]));
+  if ((t[0] == "iits" || t[0] == "itris") && t.size() == 3)
+  {
+    if constexpr (sizeof(U) <= 2)
+    {
+      __int128 const a = parse(t[2]);
+      if (!fits<U>(a))
+        return "bad-op";
+      std::uint64_t h = vh::fnv_init;
+      for (int e = std::numeric_limits<U>::min(); e <= std::numeric_limits<U>::max(); ++e)
+        h = vh::fnv(h, t[0] == "iits" ? iit_line<Int, U>(a, e) : itri_line<Int, U>(a, e));
+      return "D " + vh::hex64(h);
+    }
+    else
+      return "bad-op";
   }
   if (t[0] == "irs" && t.size() == 3)
   {
@@ -220,6 +323,10 @@ std::string ir_dispatch(std::vector<std::string> const &t)
   if (ty == "su8") return ir_ops<su8, std::uint8_t, true>(t);
   if (ty == "si32") return ir_ops<si32, std::int32_t, true>(t);
   if (ty == "su32") return ir_ops<su32, std::uint32_t, true>(t);
+  if (ty == "si16") return ir_ops<si16, std::int16_t, true>(t);
+  if (ty == "su16") return ir_ops<su16, std::uint16_t, true>(t);
+  if (ty == "si64") return ir_ops<si64, std::int64_t, true>(t);
+  if (ty == "su64") return ir_ops<su64, std::uint64_t, true>(t);
   return "bad-op";
 }
 
@@ -278,6 +385,34 @@ std::string enum_ops(std::vector<std::string> const &t)
   }
   if (t[0] == "era" && t.size() == 3)
     return enum_line<E>(fcppt::enum_::make_range<E>());
+  unsigned long long const lim = sizeof(st) >= 8 ? ~0ULL : (1ULL << (sizeof(st) * 8U)) - 1ULL;
+  if (t[0] == "erd" && t.size() == 5)
+  {
+    auto const b = vh::to_ull(t[3]), e = vh::to_ull(t[4]);
+    if (b > lim || e > lim)
+      return "bad-op";
+    return enum_line<E>(fcppt::enum_::range<E>(static_cast<st>(b), static_cast<st>(e)));
+  }
+  if (t[0] == "eit" && t.size() == 5)
+  {
+    auto const a = vh::to_ull(t[3]), b = vh::to_ull(t[4]);
+    if (a > N || b > N || a > lim || b > lim)
+      return "bad-op";
+    using it = fcppt::enum_::iterator<E>;
+    // an iterator is shown as the number v <= N with it == iterator(v) (values above N are no enumerators: never dereferenced)
+    auto const shw = [lim](it const &i) -> std::string
+    {
+      for (unsigned long long v = 0; v <= N && v <= lim; ++v)
+        if (i == it(static_cast<st>(v)))
+        {
+          if (v < N && fcppt::cast::enum_to_int<st>(*i) != static_cast<st>(v))
+            return "deref-mismatch";
+          return std::to_string(v);
+        }
+      return "?";
+    };
+    return iter_ops_line<it>([](__int128 const v) { return it(static_cast<st>(v)); }, shw, false, static_cast<__int128>(a), static_cast<__int128>(b));
+  }
   return "bad-op";
 }
 
@@ -352,10 +487,19 @@ std::string cyc_line(std::vector<std::string> const &t)
 }
 
 template <typename C, bool RandomAccess>
-std::string cycw_line(std::vector<std::string> const &t)
+std::string cycw_line(std::vector<std::string> const &t, bool const relaxed)
 {
   long long const len = vh::to_ll(t[2]), f = vh::to_ll(t[3]), s = vh::to_ll(t[4]), start = vh::to_ll(t[5]);
-  if (!(0 <= f && f < s && s <= len && f <= start && start < s && len <= 64))
+  if (relaxed)
+  {
+    // any position, any boundary f <= s (also empty); a margin of one position per operation on both sides keeps every
+    // container iterator that can be produced valid
+    long long const n = static_cast<long long>(t.size()) - 6;
+    long long const lo = std::min(start, std::min(f, s)), hi = std::max(start, std::max(f, s));
+    if (!(0 <= f && f <= s && len <= 64 && 0 <= start && n >= 1 && n <= lo && hi + n <= len))
+      return "bad-op";
+  }
+  else if (!(0 <= f && f < s && s <= len && f <= start && start < s && len <= 64))
     return "bad-op";
   C const c{make_container<C>(static_cast<std::size_t>(len))};
   using iterator = fcppt::cyclic_iterator<typename C::const_iterator>;
@@ -363,14 +507,16 @@ std::string cycw_line(std::vector<std::string> const &t)
   iterator it{at(start), typename iterator::boundary{at(f), at(s)}};
   auto const idx = [&c](iterator const &i) { return std::to_string(static_cast<long long>(std::distance(c.begin(), i.get()))); };
   std::vector<std::string> tr;
+  // the operators that return *this must return a reference to the very object
+  auto const same = [&it](iterator const &r) { return &r == &it ? std::string() : std::string("!ref"); };
   for (std::size_t k = 6; k < t.size(); ++k)
   {
     std::string const &o = t[k];
     char const ch = o[0];
     if ((ch == '+' || ch == '-' || ch == 'p' || ch == 'm') && o.size() == 1)
     {
-      if (ch == '+') { ++it; tr.push_back(idx(it)); }
-      else if (ch == '-') { --it; tr.push_back(idx(it)); }
+      if (ch == '+') { std::string const r{same(++it)}; tr.push_back(idx(it) + r); }
+      else if (ch == '-') { std::string const r{same(--it)}; tr.push_back(idx(it) + r); }
       else if (ch == 'p') { iterator const old{it++}; tr.push_back(idx(old) + ">" + idx(it)); }
       else { iterator const old{it--}; tr.push_back(idx(old) + ">" + idx(it)); }
     }
@@ -379,8 +525,8 @@ std::string cycw_line(std::vector<std::string> const &t)
       if constexpr (RandomAccess)
       {
         long long const n = vh::to_ll(o.substr(1));
-        if (ch == 'a') { it += n; tr.push_back(idx(it)); }
-        else if (ch == 's') { it -= n; tr.push_back(idx(it)); }
+        if (ch == 'a') { std::string const r{same(it += n)}; tr.push_back(idx(it) + r); }
+        else if (ch == 's') { std::string const r{same(it -= n)}; tr.push_back(idx(it) + r); }
         else tr.push_back("v" + std::to_string(it[n]));
       }
       else
@@ -390,6 +536,115 @@ std::string cycw_line(std::vector<std::string> const &t)
       return "bad-op";
   }
   return join_str(tr);
+}
+
+struct cell
+{
+  int v;
+  int w;
+};
+
+// two cyclic iterators at arbitrary positions of one container, each with its own (possibly empty) boundary
+std::string cycp_line(std::vector<std::string> const &t)
+{
+  if (t.size() != 8)
+    return "bad-op";
+  long long const len = vh::to_ll(t[1]), f1 = vh::to_ll(t[2]), s1 = vh::to_ll(t[3]), i = vh::to_ll(t[4]), f2 = vh::to_ll(t[5]),
+                  s2 = vh::to_ll(t[6]), j = vh::to_ll(t[7]);
+  if (!(0 <= f1 && f1 <= s1 && s1 <= len && 0 <= i && i <= len && 0 <= f2 && f2 <= s2 && s2 <= len && 0 <= j && j <= len && len <= 64))
+    return "bad-op";
+  std::vector<cell> c;
+  for (long long k = 0; k < len; ++k)
+    c.push_back(cell{static_cast<int>(3 * k + 1), static_cast<int>(k)});
+  using cit = std::vector<cell>::const_iterator;
+  using iterator = fcppt::cyclic_iterator<cit>;
+  iterator x{c.cbegin() + i, iterator::boundary{c.cbegin() + f1, c.cbegin() + s1}};
+  iterator y{c.cbegin() + j, iterator::boundary{c.cbegin() + f2, c.cbegin() + s2}};
+  auto const b = [](bool const v) { return v ? "1" : "0"; };
+  auto const pos = [&c](cit const p) { return std::to_string(static_cast<long long>(p - c.cbegin())); };
+  auto const show = [&pos](iterator const &k)
+  { return pos(k.get()) + ":" + pos(fcppt::tuple::get<0>(k.get_boundary())) + ":" + pos(fcppt::tuple::get<1>(k.get_boundary())); };
+  iterator const &cx{x};
+  iterator const &cy{y};
+  std::string r = std::string("cmp=") + b(cx == cy) + b(cx != cy) + b(cx < cy) + b(cx > cy) + b(cx <= cy) + b(cx >= cy);
+  r += " d=" + std::to_string(static_cast<long long>(cy - cx)) + "," + std::to_string(static_cast<long long>(cx - cy));
+  r += std::string(" self=") + b(cx == cx) + b(cx != cx) + b(cx < cx) + b(cx > cx) + b(cx <= cx) + b(cx >= cx) + "," +
+       std::to_string(static_cast<long long>(cx - cx));
+  r += " get=" + pos(cx.get()) + "," + pos(cy.get());
+  r += " bnd=" + pos(fcppt::tuple::get<0>(cx.get_boundary())) + ":" + pos(fcppt::tuple::get<1>(cx.get_boundary())) + "," +
+       pos(fcppt::tuple::get<0>(cy.get_boundary())) + ":" + pos(fcppt::tuple::get<1>(cy.get_boundary()));
+  if (i < len)
+  {
+    if (cx->w != static_cast<int>(i) || (*cx).v != cx->v)
+      return "arrow-mismatch";
+    r += " val=" + std::to_string(cx->v);
+  }
+  else
+    r += " val=-";
+  x.swap(y);
+  r += " sw=" + show(x) + "," + show(y);
+  fcppt::iterator::swap(x, y);
+  r += " fsw=" + show(x) + "," + show(y);
+  x.swap(x);
+  r += " ssw=" + show(x);
+  iterator z{x};
+  if (!(z == x) || show(z) != show(x))
+    return "copy-mismatch";
+  z = y;
+  r += " cp=" + show(z) + "/" + b(z == y);
+  return r;
+}
+
+// it + k / it - k for any 64-bit k
+std::string cycl_line(std::vector<std::string> const &t)
+{
+  if (t.size() != 7)
+    return "bad-op";
+  long long const len = vh::to_ll(t[1]), f = vh::to_ll(t[2]), s = vh::to_ll(t[3]), start = vh::to_ll(t[4]);
+  __int128 const k128 = parse(t[6]);
+  if (!(0 <= f && f < s && s <= len && f <= start && start < s && len <= 64) || !fits<long>(k128) || (t[5] != "+" && t[5] != "-"))
+    return "bad-op";
+  long const k = static_cast<long>(k128);
+  ivec const v{make_container<ivec>(static_cast<std::size_t>(len))};
+  using iterator = fcppt::cyclic_iterator<ivec::const_iterator>;
+  iterator const it0{v.begin() + start, iterator::boundary{v.begin() + f, v.begin() + s}};
+  auto const idx = [&v](iterator const &i) { return static_cast<long long>(i.get() - v.begin()); };
+  if (t[5] == "+")
+  {
+    iterator const a{it0 + k};
+    iterator b{it0};
+    b += k;
+    iterator const c{k + it0};
+    return "adv=" + std::to_string(idx(a)) + " alt=" + (a == b && a == c ? "1" : "0");
+  }
+  iterator const a{it0 - k};
+  iterator b{it0};
+  b -= k;
+  return "adv=" + std::to_string(idx(a)) + " alt=" + (a == b ? "1" : "0");
+}
+
+// the default constructor
+template <typename C>
+std::string cycd_line(std::vector<std::string> const &t)
+{
+  if (t.size() != 6)
+    return "bad-op";
+  long long const len = vh::to_ll(t[2]), i = vh::to_ll(t[3]), f = vh::to_ll(t[4]), s = vh::to_ll(t[5]);
+  if (!(0 <= f && f <= s && s <= len && 0 <= i && i <= len && len <= 64))
+    return "bad-op";
+  C const c{make_container<C>(static_cast<std::size_t>(len))};
+  using cit = typename C::const_iterator;
+  using iterator = fcppt::cyclic_iterator<cit>;
+  iterator d{};
+  iterator const d2{};
+  auto const b = [](bool const v) { return v ? "1" : "0"; };
+  std::string r = std::string("def=") + b(d.get() == cit{}) + b(fcppt::tuple::get<0>(d.get_boundary()) == cit{}) +
+                  b(fcppt::tuple::get<1>(d.get_boundary()) == cit{}) + " eq=" + b(d == d2);
+  auto const at = [&c](long long const k) { return std::next(c.begin(), k); };
+  iterator const x{at(i), typename iterator::boundary{at(f), at(s)}};
+  d = x;
+  auto const pos = [&c](cit const p) { return std::to_string(static_cast<long long>(std::distance(c.begin(), p))); };
+  return r + " asg=" + pos(d.get()) + ":" + pos(fcppt::tuple::get<0>(d.get_boundary())) + ":" + pos(fcppt::tuple::get<1>(d.get_boundary()));
 }
 
 // ------------------------------------------------------------------ grid: spiral, neighbours
@@ -404,9 +659,8 @@ template <typename T>
 std::string sp_line(std::vector<std::string> const &t)
 {
   __int128 const x = parse(t[2]), y = parse(t[3]), d = parse(t[4]);
-  // keep the walk far away from the limits of T (the model computes in unbounded integers)
-  __int128 const lim = static_cast<__int128>(std::numeric_limits<T>::max()) - 20000;
-  if (x > lim || x < -lim || y > lim || y < -lim || d > 10000 || d < -10000)
+  // any origin: where the walk (or end()) leaves the coordinate type the model says signed-overflow and UBSan stops the harness
+  if (!fits<T>(x) || !fits<T>(y) || d > 10000 || d < -10000)
     return "bad-op";
   using pos = fcppt::container::grid::pos<T, 2>;
   std::vector<std::string> out;
@@ -417,6 +671,56 @@ std::string sp_line(std::vector<std::string> const &t)
     out.push_back(pos_str(p));
   }
   return "n=" + std::to_string(out.size()) + " p=" + join_str(out);
+}
+
+// spiral_iterator used directly: n steps alternating ++it / it++, comparison with end() and with an iterator of another max_dist, swap
+template <typename T>
+std::string spi_line(std::vector<std::string> const &t)
+{
+  __int128 const x = parse(t[2]), y = parse(t[3]), d = parse(t[4]);
+  unsigned long long const n = vh::to_ull(t[5]);
+  __int128 const lim = static_cast<__int128>(std::numeric_limits<T>::max()) - 20000;
+  if (x > lim || x < -lim || y > lim || y < -lim || d > 10000 || d < -10000 || n > 300)
+    return "bad-op";
+  using pos = fcppt::container::grid::pos<T, 2>;
+  using iterator = fcppt::container::grid::spiral_iterator<pos>;
+  pos const origin(static_cast<T>(x), static_cast<T>(y));
+  fcppt::container::grid::spiral_range<pos> const range(origin, static_cast<T>(d));
+  iterator const end{range.end()};
+  iterator const init(origin, static_cast<T>(d));
+  if (!(init == range.begin()) || init != fcppt::container::grid::make_spiral_range(origin, static_cast<T>(d)).begin())
+    return "begin-mismatch";
+  iterator it{init};
+  std::vector<std::string> steps, ends;
+  if (it == end)
+    ends.push_back("0");
+  for (unsigned long long k = 1; k <= n; ++k)
+  {
+    if (k % 2U == 1U)
+    {
+      iterator &r{++it};
+      if (&r != &it)
+        return "ref-mismatch";
+      steps.push_back(pos_str(*it));
+    }
+    else
+    {
+      iterator const old{it++};
+      steps.push_back(pos_str(*old) + ">" + pos_str(*it));
+    }
+    if (it == end)
+      ends.push_back(std::to_string(k));
+  }
+  iterator const other(origin, static_cast<T>(d + 5));
+  iterator one{init};
+  ++one;
+  std::string r = "p=" + join_str(steps) + " end=" + join_str(ends) + " eqd=" + (init == other ? "1" : "0") + (init != one ? "1" : "0");
+  iterator a{init};
+  a.swap(it);
+  r += " sw=" + pos_str(*a) + "," + pos_str(*it);
+  ++a;
+  ++it;
+  return r + " next=" + pos_str(*a) + "," + pos_str(*it);
 }
 
 template <typename T>
@@ -467,6 +771,23 @@ std::string itr_line(std::vector<std::string> const &t)
   return range_elems(r) + " size=" + num(fcppt::range::size(r));
 }
 
+// operator== / != of two ranges over one container, begin() / end()
+template <typename C>
+std::string itrc_line(std::vector<std::string> const &t)
+{
+  unsigned long long const len = vh::to_ull(t[2]), i = vh::to_ull(t[3]), j = vh::to_ull(t[4]), k = vh::to_ull(t[5]), l = vh::to_ull(t[6]);
+  if (!(i <= j && j <= len && k <= l && l <= len && len <= 64))
+    return "bad-op";
+  C const c{make_container<C>(len)};
+  auto const at = [&c](unsigned long long const p) { return std::next(c.begin(), static_cast<long>(p)); };
+  using range = fcppt::iterator::range<typename C::const_iterator>;
+  range const r1{at(i), at(j)};
+  range const r2{fcppt::iterator::make_range(at(k), at(l))};
+  auto const b = [](bool const v) { return v ? "1" : "0"; };
+  auto const pos = [&c](typename C::const_iterator const p) { return std::to_string(static_cast<long long>(std::distance(c.begin(), p))); };
+  return std::string("eq=") + b(r1 == r2) + " ne=" + b(r1 != r2) + " self=" + b(r1 == r1) + b(r1 != r1) + " be=" + pos(r1.begin()) + ":" + pos(r1.end());
+}
+
 template <typename C>
 std::string adr_line(std::vector<std::string> const &t)
 {
@@ -498,22 +819,50 @@ std::string handle_inner(std::vector<std::string> const &t)
   if (t.empty())
     return "bad-op";
   std::string const &op = t[0];
-  if (op == "ir" || op == "irc" || op == "irs" || op == "irub")
+  if (op == "ir" || op == "irc" || op == "irs" || op == "irub" || op == "iit" || op == "iits" || op == "itri" || op == "itris")
     return ir_dispatch(t);
-  if (op == "er" || op == "ers" || op == "era")
+  if (op == "er" || op == "ers" || op == "era" || op == "erd" || op == "eit")
     return enum_dispatch(t);
   if (op == "cyc")
     return cyc_line(t);
   if (op == "cycw" && t.size() >= 6)
   {
-    if (t[1] == "v") return cycw_line<ivec, true>(t);
-    if (t[1] == "l") return cycw_line<ilist, false>(t);
+    if (t[1] == "v") return cycw_line<ivec, true>(t, false);
+    if (t[1] == "l") return cycw_line<ilist, false>(t, false);
+    return "bad-op";
+  }
+  if (op == "cycx" && t.size() >= 7)
+  {
+    if (t[1] == "v") return cycw_line<ivec, true>(t, true);
+    if (t[1] == "l") return cycw_line<ilist, false>(t, true);
+    return "bad-op";
+  }
+  if (op == "cycp")
+    return cycp_line(t);
+  if (op == "cycl")
+    return cycl_line(t);
+  if (op == "cycd" && t.size() == 6)
+  {
+    if (t[1] == "v") return cycd_line<ivec>(t);
+    if (t[1] == "l") return cycd_line<ilist>(t);
     return "bad-op";
   }
   if (op == "sp" && t.size() == 5)
   {
     if (t[1] == "i32") return sp_line<std::int32_t>(t);
     if (t[1] == "i64") return sp_line<std::int64_t>(t);
+    return "bad-op";
+  }
+  if (op == "spi" && t.size() == 6)
+  {
+    if (t[1] == "i32") return spi_line<std::int32_t>(t);
+    if (t[1] == "i64") return spi_line<std::int64_t>(t);
+    return "bad-op";
+  }
+  if (op == "itrc" && t.size() == 7)
+  {
+    if (t[1] == "v") return itrc_line<ivec>(t);
+    if (t[1] == "l") return itrc_line<ilist>(t);
     return "bad-op";
   }
   if (op == "nb" && t.size() == 4)
